@@ -28,7 +28,7 @@ RATES = [3e9, 2.4e9, 1.7e8, 1e6, 48000.0, 1.5e9, 2999999987.0, 104729.0, 2.79396
 
 
 def required(tier):
-    b = {'kind:arith': 100, 'kind:record': 30, 'duration:exact-multiple': 50, 'duration:ulp-neighbour': 30, 'duration:random': 30, 'duration:just-below-boundary': 100, 'duration:many-blocks': 100, 'record:from_data-longer-than-input': 8, 'record:second-recording-same-source': 20, 'record:template-on': 20, 'record:template-off': 20,
+    b = {'kind:arith': 100, 'kind:record': 30, 'duration:exact-multiple': 50, 'duration:ulp-neighbour': 30, 'duration:random': 30, 'duration:just-below-boundary': 100, 'duration:many-blocks': 100, 'record:from_data-longer-than-input': 4, 'record:from_data-shorter-than-input': 4, 'record:second-recording-same-source': 20, 'record:template-on': 20, 'record:template-off': 20,
          'record:obs_length-mode': 10, 'record:num_blocks-mode': 10, 'bits:4': 20, 'array': 20}
     return {'buckets': b, 'counters': {'durations_judged': 500, 'ledgered_requests': 100}, 'checks': 3000, 'nontrivial': 100}
 
@@ -284,7 +284,10 @@ def run_case(c, R):
                 os.remove(f_)
     # ---- a backend built from this recording, asked for MORE than the input holds: every reported length describes what was recorded
     if c['_idx'] % 16 == 7 and n >= 1 and cfg['nants'] == 1:
-        R.bucket('record:from_data-longer-than-input')
+        shorter = bool(n >= 2 and c['sub'] % 2)
+        R.bucket('record:from_data-longer-than-input' if not shorter else 'record:from_data-shorter-than-input')
+        n_req = (n - 1) if shorter else (n + 2)
+        m2 = min(n_req, n)                  # what can be, and is to be, written
         v = stg.voltage
         ant = v.Antenna(sample_rate=cfg['sample_rate'], fch1=cfg['fch1'], ascending=cfg['asc'], num_pols=cfg['npol'], seed=3)
         ant.x.add_constant_signal(f_start=cfg['fch1'] + (cfg['start_chan'] + 0.3) * cfg['sample_rate'] / cfg['P'] * (1 if cfg['asc'] else -1),
@@ -299,9 +302,9 @@ def run_case(c, R):
         try:
             with common.quiet():
                 if c['mode'] == 'num_blocks':
-                    b2.record(stem2, num_blocks=n + 2, length_mode='num_blocks', header_dict={}, load_template=False, verbose=False)
+                    b2.record(stem2, num_blocks=n_req, length_mode='num_blocks', header_dict={}, load_template=False, verbose=False)
                 else:
-                    b2.record(stem2, obs_length=(n + 2.5) * float(b2.time_per_block), length_mode='obs_length', header_dict={},
+                    b2.record(stem2, obs_length=(n_req + 0.5) * float(b2.time_per_block), length_mode='obs_length', header_dict={},
                               load_template=False, verbose=False)
         finally:
             bd2.detach()
@@ -312,16 +315,16 @@ def run_case(c, R):
         except guppi.GuppiError as e:
             R.violate('unparseable-recording:' + e.key, msg=str(e), which='from_data')
             blocks2 = []
-        R.check(len(blocks2) == n, 'from_data:blocks-written', got=len(blocks2), want=int(n))
+        R.check(len(blocks2) == m2, 'from_data:blocks-written', got=len(blocks2), want=int(m2))
         drawn = sum(s_ for s_, _ in bd2.log)
-        R.check(drawn == n * spb * P + M * P, 'from_data:antenna-samples-drawn', got=drawn, want=n * spb * P + M * P)
-        R.check(near(b2.obs_length, n * tpb, 2), 'from_data:obs_length-ignores-input-clamp', got=b2.obs_length, want=float(n * tpb))
-        R.check(b2.total_obs_num_samples == n * spb * P, 'from_data:total_obs_num_samples-ignores-input-clamp',
-                got=int(b2.total_obs_num_samples), want=n * spb * P)
+        R.check(drawn == m2 * spb * P + M * P, 'from_data:antenna-samples-drawn', got=drawn, want=m2 * spb * P + M * P)
+        R.check(near(b2.obs_length, m2 * tpb, 2), 'from_data:obs_length-ignores-input-clamp', got=b2.obs_length, want=float(m2 * tpb))
+        R.check(b2.total_obs_num_samples == m2 * spb * P, 'from_data:total_obs_num_samples-ignores-input-clamp',
+                got=int(b2.total_obs_num_samples), want=m2 * spb * P)
         for blk in blocks2[:1]:
             h = blk['header']
-            R.check(near(guppi.parse_value(h['SCANLEN']), n * tpb, 2), 'from_data:header-SCANLEN-ignores-input-clamp', got=h['SCANLEN'], want=float(n * tpb))
-            R.check(int(str(guppi.parse_value(h['PKTSTOP'])).strip("' ")) - int(str(guppi.parse_value(h['PKTSTART'])).strip("' ")) == n * spb,
+            R.check(near(guppi.parse_value(h['SCANLEN']), m2 * tpb, 2), 'from_data:header-SCANLEN-ignores-input-clamp', got=h['SCANLEN'], want=float(m2 * tpb))
+            R.check(int(str(guppi.parse_value(h['PKTSTOP'])).strip("' ")) - int(str(guppi.parse_value(h['PKTSTART'])).strip("' ")) == m2 * spb,
                     'from_data:header-PKTSTOP', got=h['PKTSTOP'])   # inherited cards are re-written as strings
         for f in f2:
             os.remove(f)
